@@ -24,6 +24,26 @@ CLAIMS = {
         ref="DESIGN.md section 4 C02, section 2.4"),
 }
 
+CLAIMS["C05"] = dict(
+    text=("Whole statement, exactly, for every right-hand side: step() of each explicit integrator class is abstractly "
+          "interpreted (affine domain over uninterpreted stage residuals, heap with aliasing and in-place operators) to "
+          "its realised Butcher tableau; all rooted-tree order conditions up to the nominal order, weights, stage "
+          "abscissae vs. the time presented to each stage, single net update, SSP (Kraaijevanger r=1) and the "
+          "low-storage stability polynomials are checked in rational arithmetic. Right level: the property is an "
+          "algebraic fact about coefficient tables and the loop that applies them."),
+    technique="abstract interpretation of step() in an affine domain (AFF) + exact rational order/SSP/stability-polynomial conditions",
+    ref="DESIGN.md section 4 C05, section 2.5")
+CLAIMS["C06"] = dict(
+    text=("Clause set decided for all fields, meshes and dt: AFF extracts from step/solve_implicit the linear system "
+          "((1+xi)/dt I - theta J) x = R(Q) + xi*last, the applied update, time advance and stored history for "
+          "implicit, backwardeuler, trapezoidal, cranknicolson and gear (both typestates) and compares them with the "
+          "theta-scheme/BDF2 tables and the linear-multistep order condition; calc_jacobian is abstractly interpreted to "
+          "its finite-difference column structure (fresh copy per column, matching eps, layout), the cache guard is a "
+          "dominance query, the perturbation magnitude is constant-folded and bounded by the forward-difference error "
+          "model. Not decided: accuracy of the Jacobian on a particular nonlinear state, conditioning."),
+    technique="abstract interpretation (AFF) of step/solve_implicit/calc_jacobian + AST dominance query + constant folding",
+    ref="DESIGN.md section 4 C06")
+
 NA_REASONS = {
     "C09": ("runtime invariant of trajectories (range and total variation after every step for all data); its "
             "code-shape premises are owned and decided by C02, C05, C11, C12, C18; the remaining step (flux "
